@@ -1,7 +1,7 @@
-import J5V.Conc.SchedProofs
+import J5V.Conc.SchedSerial
 /-! Serialisability when threads also take local steps between their critical sections: every
 schedule of `p` is matched, step for step or by stuttering, by a schedule of `stripProg p` (the
-program without those local steps) with the same lock owners, memory and observation logs. -/
+program without those local steps) with the same lock state, memory and observation logs. -/
 namespace J5V.Conc.Sched
 
 theorem strip_shape (l : Nat) (h : Bool) (t : Thread) (hs : opsShapeT l h t = true) :
@@ -11,22 +11,25 @@ theorem strip_shape (l : Nat) (h : Bool) (t : Thread) (hs : opsShapeT l h t = tr
   | cons a r ih =>
     cases h <;> cases a <;> simp_all [opsShapeT, opsShape, stripT]
 
-/-- the shape invariant of the full program -/
+/-- the shape invariant of the full program; `l` is only ever used as a mutex -/
 def TInv (l : Nat) (s : State) : Prop :=
+  s.readers l = [] ∧ s.pending l = none ∧
   ∀ (i : Nat) (t : Thread), s.rem[i]? = some t → opsShapeT l (decide (s.owner l = some i)) t = true
 
-/-- `s̃` is `s` with every thread's remaining program stripped -/
+/-- `s'` is `s` with every thread's remaining program stripped -/
 def Rel (l : Nat) (s s' : State) : Prop :=
-  s'.owner = s.owner ∧ s'.mem = s.mem ∧ s'.logs = s.logs ∧ s'.rem.length = s.rem.length ∧
+  s'.owner = s.owner ∧ s'.readers = s.readers ∧ s'.pending = s.pending ∧ s'.mem = s.mem ∧ s'.logs = s.logs ∧
+  s'.rem.length = s.rem.length ∧
   ∀ (i : Nat) (t : Thread), s.rem[i]? = some t → s'.rem[i]? = some (stripT (decide (s.owner l = some i)) t)
 
 theorem rel_init (l : Nat) (p : Prog) : Rel l (init p) (init (stripProg p)) := by
-  refine ⟨rfl, rfl, by simp [init, stripProg], by simp [init, stripProg], ?_⟩
+  refine ⟨rfl, rfl, rfl, rfl, by simp [init, stripProg], by simp [init, stripProg], ?_⟩
   intro i t ht
   simp only [init, stripProg] at ht ⊢
   simp [ht]
 
 theorem tinv_init (l : Nat) (p : Prog) (h : OpsProgT l p) : TInv l (init p) := by
+  refine ⟨rfl, rfl, ?_⟩
   intro i t ht
   simpa [init] using h t (List.mem_of_getElem? ht)
 
@@ -35,50 +38,53 @@ theorem getElem?_none_of_length {α : Type} (xs ys : List α) (i : Nat) (hl : ys
   rw [List.getElem?_eq_none_iff] at h ⊢
   omega
 
-theorem set_self_getElem? {α : Type} (xs : List α) (j : Nat) (r t : α) (h : xs[j]? = some t) :
-    (xs.set j r)[j]? = some r := by
-  obtain ⟨t', ht'⟩ := getElem?_set_isSome xs j j r t h
-  rcases getElem?_set_cases _ _ _ _ _ ht' with ⟨_, rfl⟩ | ⟨hne, _⟩
-  · exact ht'
-  · exact absurd rfl hne
+/-- both programs perform the same action: the states stay related -/
+theorem rel_fire (wv : WriteFn) (l : Nat) (s s' : State) (j : Nat) (a : Action) (r r' : Thread)
+    (hr : Rel l s s') (hj : s.rem[j]? = some (a :: r))
+    (hr' : r' = stripT (decide ((fire wv s j a r).owner l = some j)) r)
+    (hoth : ∀ i, i ≠ j → decide ((fire wv s j a r).owner l = some i) = decide (s.owner l = some i)) :
+    Rel l (fire wv s j a r) (fire wv s' j a r') := by
+  obtain ⟨ho, hrd, hpd, hm, hlg, hlen, hrem⟩ := hr
+  have hsj := hrem j _ hj
+  have hremF : ∀ (i : Nat) (t : Thread), (fire wv s j a r).rem[i]? = some t →
+      (fire wv s' j a r').rem[i]? = some (stripT (decide ((fire wv s j a r).owner l = some i)) t) := by
+    intro i t hit
+    simp only [fire_rem] at hit ⊢
+    rcases getElem?_set_cases _ _ _ _ _ hit with ⟨rfl, rfl⟩ | ⟨hij, hi⟩
+    · rw [set_self_getElem? _ _ _ _ hsj, hr']
+    · rw [List.getElem?_set_ne (Ne.symm hij), hoth i hij]
+      exact hrem i t hi
+  refine ⟨?_, ?_, ?_, ?_, ?_, by simpa using hlen, hremF⟩ <;> cases a <;> simp [fire, ho, hrd, hpd, hm, hlg]
 
 /-- one step of the full program is matched by zero or one step of the stripped program -/
 theorem rel_step (wv : WriteFn) (l : Nat) (s s' : State) (j : Nat) (hr : Rel l s s') (ht : TInv l s) :
     (Rel l (step wv s j) s' ∨ Rel l (step wv s j) (step wv s' j)) ∧ TInv l (step wv s j) := by
-  obtain ⟨ho, hm, hlg, hlen, hrem⟩ := hr
+  have hr0 := hr
+  obtain ⟨ho, hrd, hpd, hm, hlg, hlen, hrem⟩ := hr
+  obtain ⟨tnord, tnopd, tshape⟩ := ht
   cases hj : s.rem[j]? with
   | none =>
     have : step wv s j = s := by simp [step, hj]
-    rw [this]; exact ⟨Or.inl ⟨ho, hm, hlg, hlen, hrem⟩, ht⟩
+    rw [this]; exact ⟨Or.inl hr0, tnord, tnopd, tshape⟩
   | some tj =>
     cases tj with
     | nil =>
       have : step wv s j = s := by simp [step, hj]
-      rw [this]; exact ⟨Or.inl ⟨ho, hm, hlg, hlen, hrem⟩, ht⟩
+      rw [this]; exact ⟨Or.inl hr0, tnord, tnopd, tshape⟩
     | cons a r =>
       have hsj := hrem j _ hj
-      have hshape := ht j _ hj
-      -- generic facts about a step that only replaces thread j's remainder
-      have others : ∀ (rem' : List Thread) (rem'' : List Thread) (r'' : Thread) (own' : Nat → Option Nat),
-          rem' = s.rem.set j r → rem'' = s'.rem.set j r'' →
-          (∀ i, i ≠ j → decide (own' l = some i) = decide (s.owner l = some i)) →
-          r'' = stripT (decide (own' l = some j)) r →
-          ∀ (i : Nat) (t : Thread), rem'[i]? = some t → rem''[i]? = some (stripT (decide (own' l = some i)) t) := by
-        intro rem' rem'' r'' own' h1 h2 h3 h4 i t hit
-        subst h1 h2
-        rcases getElem?_set_cases _ _ _ _ _ hit with ⟨rfl, rfl⟩ | ⟨hij, hi⟩
-        · rw [set_self_getElem? _ _ _ _ hsj, h4]
-        · rw [List.getElem?_set_ne (Ne.symm hij), h3 i hij]
-          exact hrem i t hi
-      have tothers : ∀ (rem' : List Thread) (own' : Nat → Option Nat), rem' = s.rem.set j r →
-          (∀ i, i ≠ j → decide (own' l = some i) = decide (s.owner l = some i)) →
-          opsShapeT l (decide (own' l = some j)) r = true →
-          ∀ (i : Nat) (t : Thread), rem'[i]? = some t → opsShapeT l (decide (own' l = some i)) t = true := by
-        intro rem' own' h1 h3 h4 i t hit
-        subst h1
+      have hshape := tshape j _ hj
+      -- the shape invariant after a fired step of thread j
+      have tfire : (fire wv s j a r).readers l = [] → (fire wv s j a r).pending l = none →
+          (∀ i, i ≠ j → decide ((fire wv s j a r).owner l = some i) = decide (s.owner l = some i)) →
+          opsShapeT l (decide ((fire wv s j a r).owner l = some j)) r = true → TInv l (fire wv s j a r) := by
+        intro h1 h2 h3 h4
+        refine ⟨h1, h2, ?_⟩
+        intro i t hit
+        simp only [fire_rem] at hit
         rcases getElem?_set_cases _ _ _ _ _ hit with ⟨rfl, rfl⟩ | ⟨hij, hi⟩
         · exact h4
-        · rw [h3 i hij]; exact ht i t hi
+        · rw [h3 i hij]; exact tshape i t hi
       cases hh : decide (s.owner l = some j) with
       | false =>
         rw [hh] at hsj hshape
@@ -86,34 +92,37 @@ theorem rel_step (wv : WriteFn) (l : Nat) (s s' : State) (j : Nat) (hr : Rel l s
         cases a with
         | tau =>
           -- a local step outside: the stripped program stutters
-          have hstep : step wv s j = { s with rem := s.rem.set j r } := by simp [step, hj]
-          rw [hstep]
-          refine ⟨Or.inl ⟨ho, hm, hlg, by simpa using hlen, ?_⟩, ?_⟩
+          rw [step_fire wv s j _ r hj rfl]
+          refine ⟨Or.inl ⟨ho, hrd, hpd, hm, hlg, by simpa using hlen, ?_⟩, ?_⟩
           · intro i t hit
-            simp only [] at hit ⊢
+            simp only [fire_rem] at hit
+            have hoF : (fire wv s j .tau r).owner = s.owner := rfl
+            rw [hoF]
             rcases getElem?_set_cases _ _ _ _ _ hit with ⟨rfl, rfl⟩ | ⟨_, hi⟩
             · rw [hh]; simpa [stripT] using hsj
             · exact hrem i t hi
-          · exact tothers _ s.owner rfl (fun _ _ => rfl) (by rw [hh]; simpa [opsShapeT] using hshape)
+          · exact tfire tnord tnopd (fun _ _ => rfl)
+              (by have hoF : (fire wv s j .tau r).owner = s.owner := rfl
+                  rw [hoF, hh]; simpa [opsShapeT] using hshape)
         | lock l' =>
           simp only [opsShapeT, Bool.and_eq_true, decide_eq_true_eq] at hshape
           obtain ⟨rfl, hshr⟩ := hshape
           simp only [stripT] at hsj
           by_cases hfree : s.owner l' = none
-          · have hfree' : s'.owner l' = none := by rw [ho]; exact hfree
-            have hstep : step wv s j = { s with rem := s.rem.set j r, owner := upd s.owner l' (some j) } := by
-              simp [step, hj, hfree]
-            have hstep' : step wv s' j = { s' with rem := s'.rem.set j (stripT true r), owner := upd s'.owner l' (some j) } := by
-              simp [step, hsj, hfree']
-            rw [hstep, hstep']
-            have hoth : ∀ i, i ≠ j → decide (upd s.owner l' (some j) l' = some i) = decide (s.owner l' = some i) := by
-              intro i hij; simp [upd, hfree, Ne.symm hij]
-            refine ⟨Or.inr ⟨by simp [ho], hm, hlg, by simpa using hlen, ?_⟩, ?_⟩
-            · exact others _ _ _ _ rfl rfl hoth (by simp [upd])
-            · exact tothers _ _ rfl hoth (by simpa [upd] using hshr)
-          · have hstep : step wv s j = s := by simp [step, hj, hfree]
-            rw [hstep]; exact ⟨Or.inl ⟨ho, hm, hlg, hlen, hrem⟩, ht⟩
+          · have hc : canFire s j (.lock l') = true := by simp [canFire, hfree, tnord, tnopd]
+            have hc' : canFire s' j (.lock l') = true := by simp [canFire, ho, hrd, hpd, hfree, tnord, tnopd]
+            rw [step_fire wv s j _ r hj hc, step_fire wv s' j _ _ hsj hc']
+            have hoth : ∀ i, i ≠ j → decide ((fire wv s j (.lock l') r).owner l' = some i) = decide (s.owner l' = some i) := by
+              intro i hij; simp [fire, hfree, Ne.symm hij]
+            refine ⟨Or.inr (rel_fire wv l' s s' j _ r _ hr0 hj (by simp [fire]) hoth), ?_⟩
+            exact tfire (by simpa [fire] using tnord) (by simp [fire]) hoth (by simpa [fire] using hshr)
+          · have hc : canFire s j (.lock l') = false := by simp [canFire, hfree]
+            rw [step_blocked wv s j _ r hj hc]
+            have : announce s j (.lock l') = s := by simp [announce, hfree]
+            rw [this]; exact ⟨Or.inl hr0, tnord, tnopd, tshape⟩
         | unlock l' => simp [opsShapeT] at hshape
+        | rlock l' => simp [opsShapeT] at hshape
+        | runlock l' => simp [opsShapeT] at hshape
         | read x => simp [opsShapeT] at hshape
         | write x => simp [opsShapeT] at hshape
       | true =>
@@ -122,51 +131,38 @@ theorem rel_step (wv : WriteFn) (l : Nat) (s s' : State) (j : Nat) (hr : Rel l s
         have hown' : s'.owner l = some j := by rw [ho]; exact hown
         cases a with
         | lock l' => simp [opsShapeT] at hshape
+        | rlock l' => simp [opsShapeT] at hshape
+        | runlock l' => simp [opsShapeT] at hshape
         | unlock l' =>
           simp only [opsShapeT, Bool.and_eq_true, decide_eq_true_eq] at hshape
           obtain ⟨rfl, hshr⟩ := hshape
           simp only [stripT] at hsj
-          have hstep : step wv s j = { s with rem := s.rem.set j r, owner := upd s.owner l' none } := by
-            simp [step, hj, hown]
-          have hstep' : step wv s' j = { s' with rem := s'.rem.set j (stripT false r), owner := upd s'.owner l' none } := by
-            simp [step, hsj, hown']
-          rw [hstep, hstep']
-          have hoth : ∀ i, i ≠ j → decide (upd s.owner l' none l' = some i) = decide (s.owner l' = some i) := by
-            intro i hij; simp [upd, hown, Ne.symm hij]
-          refine ⟨Or.inr ⟨by simp [ho], hm, hlg, by simpa using hlen, ?_⟩, ?_⟩
-          · exact others _ _ _ _ rfl rfl hoth (by simp [upd])
-          · exact tothers _ _ rfl hoth (by simpa [upd] using hshr)
+          rw [step_fire wv s j _ r hj (by simp [canFire, hown]), step_fire wv s' j _ _ hsj (by simp [canFire, hown'])]
+          have hoth : ∀ i, i ≠ j → decide ((fire wv s j (.unlock l') r).owner l' = some i) = decide (s.owner l' = some i) := by
+            intro i hij; simp [fire, hown, Ne.symm hij]
+          refine ⟨Or.inr (rel_fire wv l' s s' j _ r _ hr0 hj (by simp [fire]) hoth), ?_⟩
+          exact tfire (by simpa [fire] using tnord) (by simpa [fire] using tnopd) hoth (by simpa [fire] using hshr)
         | read x =>
           have hshr : opsShapeT l true r = true := by simpa [opsShapeT] using hshape
           simp only [stripT] at hsj
-          have hstep : step wv s j = { s with rem := s.rem.set j r, logs := s.logs.set j (s.logs.getD j [] ++ [s.mem x]) } := by
-            simp [step, hj]
-          have hstep' : step wv s' j = { s' with rem := s'.rem.set j (stripT true r), logs := s'.logs.set j (s'.logs.getD j [] ++ [s'.mem x]) } := by
-            simp [step, hsj]
-          rw [hstep, hstep']
-          refine ⟨Or.inr ⟨ho, hm, by simp [hlg, hm], by simpa using hlen, ?_⟩, ?_⟩
-          · exact others _ _ _ s.owner rfl rfl (fun _ _ => rfl) (by rw [hh])
-          · exact tothers _ s.owner rfl (fun _ _ => rfl) (by rw [hh]; exact hshr)
+          rw [step_fire wv s j _ r hj rfl, step_fire wv s' j _ _ hsj rfl]
+          have hoF : (fire wv s j (.read x) r).owner = s.owner := rfl
+          refine ⟨Or.inr (rel_fire wv l s s' j _ r _ hr0 hj (by rw [hoF, hh]) (fun _ _ => rfl)), ?_⟩
+          exact tfire tnord tnopd (fun _ _ => rfl) (by rw [hoF, hh]; exact hshr)
         | write x =>
           have hshr : opsShapeT l true r = true := by simpa [opsShapeT] using hshape
           simp only [stripT] at hsj
-          have hstep : step wv s j = { s with rem := s.rem.set j r, mem := upd s.mem x (wv j x (s.logs.getD j [])) } := by
-            simp [step, hj]
-          have hstep' : step wv s' j = { s' with rem := s'.rem.set j (stripT true r), mem := upd s'.mem x (wv j x (s'.logs.getD j [])) } := by
-            simp [step, hsj]
-          rw [hstep, hstep']
-          refine ⟨Or.inr ⟨ho, by simp [hlg, hm], hlg, by simpa using hlen, ?_⟩, ?_⟩
-          · exact others _ _ _ s.owner rfl rfl (fun _ _ => rfl) (by rw [hh])
-          · exact tothers _ s.owner rfl (fun _ _ => rfl) (by rw [hh]; exact hshr)
+          rw [step_fire wv s j _ r hj rfl, step_fire wv s' j _ _ hsj rfl]
+          have hoF : (fire wv s j (.write x) r).owner = s.owner := rfl
+          refine ⟨Or.inr (rel_fire wv l s s' j _ r _ hr0 hj (by rw [hoF, hh]) (fun _ _ => rfl)), ?_⟩
+          exact tfire tnord tnopd (fun _ _ => rfl) (by rw [hoF, hh]; exact hshr)
         | tau =>
           have hshr : opsShapeT l true r = true := by simpa [opsShapeT] using hshape
           simp only [stripT] at hsj
-          have hstep : step wv s j = { s with rem := s.rem.set j r } := by simp [step, hj]
-          have hstep' : step wv s' j = { s' with rem := s'.rem.set j (stripT true r) } := by simp [step, hsj]
-          rw [hstep, hstep']
-          refine ⟨Or.inr ⟨ho, hm, hlg, by simpa using hlen, ?_⟩, ?_⟩
-          · exact others _ _ _ s.owner rfl rfl (fun _ _ => rfl) (by rw [hh])
-          · exact tothers _ s.owner rfl (fun _ _ => rfl) (by rw [hh]; exact hshr)
+          rw [step_fire wv s j _ r hj rfl, step_fire wv s' j _ _ hsj rfl]
+          have hoF : (fire wv s j .tau r).owner = s.owner := rfl
+          refine ⟨Or.inr (rel_fire wv l s s' j _ r _ hr0 hj (by rw [hoF, hh]) (fun _ _ => rfl)), ?_⟩
+          exact tfire tnord tnopd (fun _ _ => rfl) (by rw [hoF, hh]; exact hshr)
 
 /-- every schedule of the full program is matched by a schedule of the stripped program -/
 theorem rel_runFrom (wv : WriteFn) (l : Nat) (sched : List Nat) (s s' : State) (hr : Rel l s s') (ht : TInv l s) :
@@ -182,7 +178,7 @@ theorem rel_runFrom (wv : WriteFn) (l : Nat) (sched : List Nat) (s s' : State) (
       exact ⟨j :: sched', hs⟩
 
 theorem rel_allDone (l : Nat) (s s' : State) (hr : Rel l s s') (hd : AllDone s) : AllDone s' := by
-  obtain ⟨_, _, _, hlen, hrem⟩ := hr
+  obtain ⟨_, _, _, _, _, hlen, hrem⟩ := hr
   intro i t hi
   cases hs : s.rem[i]? with
   | none => rw [getElem?_none_of_length _ _ _ hlen hs] at hi; cases hi
